@@ -232,6 +232,9 @@ func opMatchTx(h *HState, a Event) Event {
 		o.dead = true
 		return e
 	}
+	if gBool(a, "noobs") {
+		return e
+	}
 	e["post"] = post(o, false)
 	return e
 }
@@ -469,6 +472,7 @@ func runC11F(c *Ctx) {
 }
 
 func runC10(c *Ctx) {
+	c.DeferredOp = "BloomObserve"
 	r := c.Rng
 	// single transactions against a filter: result and post-state exact
 	for k := 0; k < c.Pick(120, 1500); k++ {
